@@ -254,6 +254,19 @@ func storedSpecials(m *big.Int) []*big.Int {
 		add(x)
 	}
 
+	// t and m - t differing in the low limb only (t = (m + d)/2 for odd d): a value whose negation a comparison that skips
+	// the low limb takes for the value itself (the square-root check of a non-residue compares exactly such a pair)
+	for _, d := range []int64{1, -1, 3, -3, 1 << 20, -(1 << 20), (1 << 32) + 977, 1<<40 + 1, -(1<<40 + 1)} {
+		dd := bi(d)
+		if dd.Bit(0) == 0 {
+			dd = addI(dd, 1)
+		}
+
+		t := new(big.Int).Rsh(new(big.Int).Add(m, dd), 1)
+		add(t)
+		add(new(big.Int).Sub(m, t))
+	}
+
 	// one limb above the modulus' own limb in that position while the value as a whole is below the modulus (in particular a
 	// low limb above m0): a limb-wise subtraction from the modulus borrows out of that limb, which a hand-written negation
 	// or comparison forgets
